@@ -87,7 +87,34 @@ let judge _name ins outs =
              if r.status = st && r.warning = warn && not r.tunnel then VOk true
              else VDisagree "connect_response"
        | _ -> VPropfail ("connect_fail_502", "got=" ^ String.concat "_" outs))
+  | ["DOWN"; arg] ->
+      let n = String.length arg in
+      let code = n_of_dec (String.sub arg 0 (n - 1)) in
+      let body_sent = if arg.[n-1] = 'b' then n_of_int 13 else N0 in
+      (match outs with
+       | [s; b; e] when String.length s > 1 && s.[0] = 's' && String.length b > 2 && b.[0] = 'B' ->
+           let got = n_of_dec (String.sub s 1 (String.length s - 1)) in
+           let bl = String.length b in
+           let body_got = n_of_dec (String.sub b 1 (bl - 2)) in
+           if not (down_ok code got body_sent body_got (b.[bl-1] = '+') (e = "E1"))
+           then VPropfail ("downstream_refusal_relayed", "got=" ^ String.concat "_" outs)
+           else if (connect_downstream code).d_status = got && not (connect_downstream code).d_tunnel
+           then VOk true else VDisagree "connect_downstream"
+       | _ -> VPropfail ("downstream_refusal_relayed", "got=" ^ String.concat "_" outs))
   | "TUN" :: via :: e :: b :: phtoks ->
+      (* via = D | M | F[<code>[c|r]] with an optional listener suffix +s | +w *)
+      let via, lkind = match String.index_opt via '+' with
+        | Some i -> String.sub via 0 i, via.[i+1]
+        | None -> via, 't' in
+      let fcode =
+        if String.length via > 1 && via.[0] = 'F' then begin
+          let r = String.sub via 1 (String.length via - 1) in
+          let r = if r.[String.length r - 1] = 'c' || r.[String.length r - 1] = 'r'
+            then String.sub r 0 (String.length r - 1) else r in
+          int_of_string r end
+        else 200 in
+      let via = if via.[0] = 'F' then "F" else via in
+      let want_status = Printf.sprintf "s%d" fcode in
       let early_shut = e.[String.length e - 1] = 'h' in
       let e = if early_shut then String.sub e 0 (String.length e - 1) else e in
       let phtoks = if early_shut then "ch/t" :: phtoks else phtoks in
@@ -97,13 +124,30 @@ let judge _name ins outs =
       let early = int_of_string (String.sub e 1 (String.length e - 1)) in
       let banner = int_of_string (String.sub b 1 (String.length b - 1)) in
       let phases = List.map parse_phase phtoks in
+      (* a client-side connection that cannot be half-closed: when the target shuts, the
+         proxy closes it; for the rest of the tunnel that is an abort of the client's
+         direction at that moment (modelled by the label ClientAbort in that phase) *)
+      let phases =
+        if lkind <> 'w' then phases
+        else begin
+          let cdone = ref false and inserted = ref false in
+          List.map (fun (c, t) ->
+              let c' =
+                if !inserted then { c with shut = ' ' }   (* its own later shut meets a closed connection *)
+                else if not !cdone && c.shut = ' ' && t.shut <> ' ' then (inserted := true; { c with shut = 'a' })
+                else c in
+              if c'.shut <> ' ' then cdone := true;
+              (c', t)) phases
+        end in
       let nphases = List.map (fun (c, t) ->
           { np_c = n_of_int c.bytes; np_cshut = (c.shut <> ' ');
             np_t = n_of_int t.bytes; np_tshut = (t.shut <> ' ') }) phases in
       (match outs with
        | "PANIC" :: _ -> VPropfail ("panic", "harness-recovered-panic")
-       | s :: rest when s <> "s200" || rest = [] ->
-           VPropfail ("connect_status", "got=" ^ String.concat "_" outs)
+       | s :: rest when s <> want_status || rest = [] ->
+           VPropfail ("connect_status", "want=" ^ want_status ^ " got=" ^ String.concat "_" outs)
+       | _ when via = "F" && not (connect_downstream (n_of_int fcode)).d_tunnel ->
+           VDisagree "model-says-this-downstream-status-is-not-a-tunnel(Gen_Ret.downstream_any_2xx)"
        | _ :: rest ->
            (try
               let rec split acc = function
